@@ -709,22 +709,59 @@ Fixpoint nest_ok (stk : list N) (l : list drec) : bool :=
         end
       else nest_ok stk r
   end.
-Record ecase := {
-  e_ftab : list (N * N);          (* start, size of f0, f1, ... *)
-  e_log : list (N * N);           (* the thread's own log: (0 enter | 1 leave, k) *)
-  e_bytes : list N;               (* <tid>.dat *)
-  e_crash : bool;                 (* the thread died in the SIGSEGV/SIGABRT handler path: open calls included *)
-  e_nest : bool }.                (* check nesting (off when the image was replaced by exec) *)
+(* what the record-time options keep of the program's own log: -N functions (and everything below them)
+   and calls at a nesting level >= the -D limit are not recorded (level of a logged call = number of
+   open logged calls + 1: main / the thread function is level 0) *)
+Fixpoint filt (nt : list N) (maxd : N) (d : N) (hide : option N) (l : list (N * N)) : list (N * N) :=
+  match l with
+  | [] => []
+  | (ty, k) :: r =>
+      if (ty =? 0)%N then
+        match hide with
+        | Some _ => filt nt maxd (d + 1) hide r
+        | None =>
+            if existsb (N.eqb k) nt then filt nt maxd (d + 1) (Some d) r
+            else if (d + 1 <? maxd)%N then (ty, k) :: filt nt maxd (d + 1) None r
+            else filt nt maxd (d + 1) None r
+        end
+      else
+        let d' := (d - 1)%N in
+        match hide with
+        | Some h => if (h =? d')%N then filt nt maxd d' None r else filt nt maxd d' hide r
+        | None => if (d' + 1 <? maxd)%N then (ty, k) :: filt nt maxd d' None r else filt nt maxd d' None r
+        end
+  end.
 Definition crash_log (l : list (N * N)) : list (N * N) :=
   match rev l with
   | (1%N, _) :: _ => removelast l       (* died while logging the leave: that call is still open *)
   | _ => l
   end.
+Record ecase := {
+  e_ftab : list (N * N);          (* start, size of f0, f1, ... *)
+  e_nt : list N; e_maxd : N;      (* record options -N f<k> ... / -D <n> *)
+  e_log1 : list (N * N);          (* the thread's own log: (0 enter | 1 leave, k) *)
+  e_log2 : list (N * N);          (* ... of the image exec()ed in the same task ([] if none) *)
+  e_bytes : list N;               (* <tid>.dat *)
+  e_crash1 : bool;                (* the thread died in the SIGSEGV/SIGABRT handler path: open calls included *)
+  e_crash2 : bool;                (* ... in the second image *)
+  e_nest : bool }.                (* check nesting (off when the image was replaced by exec) *)
+Definition expect1 (c : ecase) := filt (e_nt c) (e_maxd c) 0%N None (if e_crash1 c then crash_log (e_log1 c) else e_log1 c).
+Definition expect2 (c : ecase) := filt (e_nt c) (e_maxd c) 0%N None (if e_crash2 c then crash_log (e_log2 c) else e_log2 c).
+(* p = p1 ++ p2, p1 a prefix of the first image's trace, p2 of the second's (complete where a crash
+   handler ran) *)
+Definition split_ok (c : ecase) (p : list (N * N)) (i : nat) : bool :=
+  let p1 := firstn i p in let p2 := skipn i p in
+  ev_prefix p1 (expect1 c) && ev_prefix p2 (expect2 c)
+  && (negb (e_crash1 c) || Nat.eqb (length p1) (length (expect1 c)))
+  && (negb (e_crash2 c) || Nat.eqb (length p2) (length (expect2 c))).
 Definition ok_e2e (c : ecase) : bool :=
   match dec_bytes (e_bytes c) with
   | None => false
   | Some l =>
       let p := project (e_ftab c) l in
-      ev_prefix p (e_log c) && times_ok 0 l && (negb (e_nest c) || nest_ok [] l)
-      && (negb (e_crash c) || Nat.eqb (length p) (length (crash_log (e_log c))))
+      times_ok 0 l && (negb (e_nest c) || nest_ok [] l)
+      && match e_log2 c with
+         | [] => split_ok c p (length p)
+         | _ => existsb (split_ok c p) (seq 0 (S (length p)))
+         end
   end.
